@@ -84,10 +84,7 @@ pub fn spaces(tier: &str) -> Vec<Box<dyn Space>> {
         }
         // (c) every count 0..=65535 against buffers holding 0, 1, 3 and (thorough) the maximal number of records
         let maxrec = (65535 - 24) / rs;
-        let mut held = vec![0usize, 1, 3, 30];
-        if thorough {
-            held.push(maxrec);
-        }
+        let held = vec![0usize, 1, 3, 30, maxrec];
         for h in held {
             let base = fixed_distinct(version, h, 3);
             let b2 = base.clone();
@@ -108,7 +105,7 @@ pub fn spaces(tier: &str) -> Vec<Box<dyn Space>> {
         }
         // every materialisable count with byte-distinct records (exact packets)
         {
-            let top = if thorough { maxrec } else { 200 };
+            let top = maxrec;
             v.push(space(
                 &format!("v{}-materialised-counts-0..={}", version, top),
                 top as u64 + 1,
@@ -130,9 +127,9 @@ pub fn spaces(tier: &str) -> Vec<Box<dyn Space>> {
             ));
         }
         // (e) every proper prefix
-        let mut prefix_of = vec![0usize, 1, 2, 3, 30];
+        let mut prefix_of = vec![0usize, 1, 2, 3, 30, maxrec];
         if thorough {
-            prefix_of.push(maxrec);
+            prefix_of.push(maxrec / 2);
         }
         for n in prefix_of {
             let full = fixed_distinct(version, n, 11);
@@ -149,7 +146,7 @@ pub fn run(tier: &str) -> i32 {
         tier: tier.into(),
         level: "exploration",
         rule: "every index of each listed space is evaluated: walking byte (every offset x 256 values), all field pairs x 5x5 boundary values, every count 0..=65535 over buffers holding 0/1/3/30/max records, every materialisable record count, all 256 protocol numbers, every proper prefix; an evaluation is non-trivial/distinct by the hash of the canonical result list".into(),
-        bounds: json!({"versions": [5,7], "counts": "0..=65535", "protocol_numbers": "0..=255", "max_records": if tier=="thorough" {"datagram limit (1364 / 1260)"} else {"200 materialised, 30 for prefixes"}}),
+        bounds: json!({"versions": [5,7], "counts": "0..=65535", "protocol_numbers": "0..=255", "max_records": "datagram limit (1364 / 1259)"}),
         assumptions: vec!["IANA keyword per protocol number is the table typed into mc/src/iana.rs (spelling of the library's enum)".into()],
         trusted_base: vec!["reference offset-table decoder refmodel::ref_fixed".into()],
         required_tags: vec![],
